@@ -811,6 +811,7 @@ class World:
                 else:
                     m.paused = None
         consumed = call.consumed - before
+        out = m.conclude(call, out, obs)
         if obs is not None and obs[0] == "raise" and obs[1] == "icontract":
             self.violation("icontract:" + obs[2][0], f"class invariant broken around {self.call_op}: {obs[2][1]}")
             return
